@@ -4,7 +4,7 @@
     reflective obligation over the generated inventory Gen/MapRanges.v, which is closed by
     [vm_compute]. *)
 From Coq Require Import ZArith NArith List Bool Permutation Sorted String.
-From Verif Require Import Gov.Model Gov.VoteOrder Gov.VprProofs Determ.Sorting Determ.Export Determ.Agree Determ.Shapes.
+From Verif Require Import Gov.Model Gov.VoteOrder Gov.VprProofs Determ.Sorting Determ.Export Determ.Agree Determ.BlockState Determ.Shapes.
 From Verif Require Import Gen.MapRanges.
 Import ListNotations.
 Open Scope Z_scope.
@@ -18,6 +18,47 @@ Theorem C02_produce_validate_agree : forall c cands g b g',
   skips_clean c g cands -> produce_block c g cands = (b, g') -> exec_block c g b = Some g'.
 Proof. exact produce_validate_agree. Qed.
 Print Assumptions C02_produce_validate_agree.
+
+(** (a), at the level of chain.executeTx / NewTxExecutor / BlockState: the block state is the
+    part saved by Snapshot/Rollback (accounts, storages) plus what is NOT saved — BpReward,
+    receipts, internalOps, CCProposal, process-wide globals.  If every transaction the producer
+    drops (or that ends the block by a contract timeout) left those untouched, the validator
+    ends in the producer's block state, reward pot and receipts included. *)
+Theorem C02_produce_validate_agree_blockstate :
+  forall (C M R P T : Type) (etx : bstate C M R P -> T -> bool * bool * bstate C M R P) cands bs b bs',
+    skips_clean_b C M R P T etx bs cands -> produce C M R P T etx bs cands = (b, bs') ->
+    validate C M R P T etx bs b = Some bs'.
+Proof. exact produce_validate_agree_b. Qed.
+Print Assumptions C02_produce_validate_agree_blockstate.
+
+(** executeTx (HEAD ordering) credits the reward pot and appends receipt / internal ops only on
+    its non-failing exit; NewTxExecutor restores the covered part. *)
+Theorem C02_execute_tx_failure_leaves_pot_and_receipts :
+  forall (C M R P T : Type) (core : C -> M -> option P -> T -> core_result C M R P) bs t to bs',
+    tx_exec C M R P T (execute_tx C M R P T core) bs t = (true, to, bs') ->
+    bp _ _ _ _ bs' = bp _ _ _ _ bs /\ rcpts _ _ _ _ bs' = rcpts _ _ _ _ bs /\ iops _ _ _ _ bs' = iops _ _ _ _ bs /\
+    covered _ _ _ _ bs' = covered _ _ _ _ bs.
+Proof. exact execute_tx_failure_leaves_pot_and_receipts. Qed.
+Print Assumptions C02_execute_tx_failure_leaves_pot_and_receipts.
+
+(** so for HEAD the hypothesis reduces to: a dropped transaction did not touch CCProposal and
+    the globals (for governance transactions: C15_rejected_tx_memory_unchanged). *)
+Theorem C02_produce_validate_agree_head :
+  forall (C M R P T : Type) (core : C -> M -> option P -> T -> core_result C M R P) cands bs b bs',
+    skips_clean_core C M R P T core bs cands ->
+    produce C M R P T (execute_tx C M R P T core) bs cands = (b, bs') ->
+    validate C M R P T (execute_tx C M R P T core) bs b = Some bs'.
+Proof. exact produce_validate_agree_head. Qed.
+Print Assumptions C02_produce_validate_agree_head.
+
+(** the ordering of seeded/C02/patch.diff (pot credited before the error handling) is refuted:
+    a dropped call leaves its fee in the pot, the validator computes another pot. *)
+Theorem C02_bp_reward_before_error_handling_refuted :
+  exists cands bs,
+    let '(b, bs') := produce Z unit Z unit Z (execute_tx_mut Z unit Z unit Z demo_core) bs cands in
+    exists bs'', validate Z unit Z unit Z (execute_tx_mut Z unit Z unit Z demo_core) bs b = Some bs'' /\ bp _ _ _ _ bs'' <> bp _ _ _ _ bs'.
+Proof. exact bp_reward_before_error_handling_refuted. Qed.
+Print Assumptions C02_bp_reward_before_error_handling_refuted.
 
 (** (b)/(c) uniqueness of sorted permutations for a strict total order. *)
 Theorem C02_sorted_perm_unique : forall (A : Type) (ltb : A -> A -> bool) (P : A -> Prop),
